@@ -275,7 +275,70 @@ def raw_positional(repo, rep, rule):
     return nops
 
 
+def foreign_labels(repo, rep, rule):
+    """assign_coords REPLACES labels position by position: coordinates taken from ANOTHER labelled object stamp that object's labels onto data stored in a
+    possibly different order (two operands with the same labels stored rolled / descending are then paired by position).  Accepted: values derived from the
+    receiver's own coordinates, plain arrays / scalars computed here, and the wholesale restore `x.assign_coords(<first parameter>.coords)`."""
+    SCOPE = ("wavespectra.specarray", "wavespectra.core.utils", "wavespectra.core.xrstats", "wavespectra.partition.partition")
+    n_ = 0
+
+    def root(e):
+        while isinstance(e, (ast.Attribute, ast.Subscript, ast.Call)):
+            e = e.func if isinstance(e, ast.Call) else e.value
+        return e.id if isinstance(e, ast.Name) else None
+    for fi in repo.all_funcs():
+        if fi.module.name not in SCOPE:
+            continue
+        for c in ast.walk(fi.node):
+            if not (isinstance(c, ast.Call) and isinstance(c.func, ast.Attribute) and c.func.attr == "assign_coords"):
+                continue
+            n_ += 1
+            recv = root(c.func.value)
+            if len(c.args) == 1 and isinstance(c.args[0], ast.Attribute) and c.args[0].attr == "coords" and isinstance(c.args[0].value, ast.Name) \
+                    and c.args[0].value.id in fi.params[:2]:
+                rep.ok(rule, f"{fi.file}:{c.lineno} {fi.short}", unparse(c)[:70], "the input's own coordinates restored wholesale")
+                continue
+            vals = []
+            for a in c.args:
+                if isinstance(a, ast.Dict):
+                    vals += list(a.values)
+                elif isinstance(a, ast.DictComp):
+                    vals.append(a.value)
+                else:
+                    vals.append(a)
+            vals += [k.value for k in c.keywords]
+            foreign = set()
+            for v in vals:
+                for x in ast.walk(v):
+                    if isinstance(x, (ast.Subscript, ast.Attribute)) and isinstance(x.value, ast.Name):
+                        r = x.value.id
+                        if r in (recv, "np", "numpy", "attrs", "xr", "math") or (r == "self" and recv == "self"):
+                            continue
+                        if r == "self" or isinstance(x, ast.Subscript) or x.attr in ("coords", "dir", "freq", "values", "data", "indexes"):
+                            # a labelled object other than the receiver supplies the labels
+                            loc = [a_ for a_ in ast.walk(fi.node) if isinstance(a_, ast.Assign) and any(isinstance(t_, ast.Name) and t_.id == r for t_ in a_.targets)]
+                            plain = loc and all(isinstance(a_.value, ast.Call) and call_name(a_.value).split(".")[-1] in
+                                                ("array", "asarray", "arange", "linspace", "unique", "sort", "concatenate", "list", "sorted") for a_ in loc)
+                            if not plain:
+                                foreign.add(r)
+            if foreign:
+                rep.fail(rule, fi.file, c.lineno, fi.qualname, unparse(c)[:110],
+                         f"the labels of {sorted(foreign)} are stamped onto '{recv}' position by position: operands holding the same labels in another stored order "
+                         "(rolled, descending) are then combined bin-with-wrong-bin instead of being aligned by label", anchor=f"foreign-labels:{fi.short}:{recv}")
+            else:
+                rep.ok(rule, f"{fi.file}:{c.lineno} {fi.short}", unparse(c)[:70], "labels derived from the receiver's own coordinates / computed here")
+    return n_
+
+
 def run(repo, rep, tier):
+    rep.rule("R-C05-9", "assign_coords never stamps another labelled object's coordinates onto data (that is a positional pairing): labels come from the receiver itself, "
+                        "from arrays computed in the function, or are the wholesale restore of the input's own coordinates")
+    rep.floor("R-C05-9", "assign_coords sites in label-level code", foreign_labels(repo, rep, "R-C05-9"), 5)
+    rep.rule("R-C05-10", "(shared with C11) writers that hand the bare array to a text format fix the full axis order by name first (time, site, freq, dir): an Ellipsis keeps "
+                         "the stored order of the remaining axes and the file then depends on how the dataset happened to be stored")
+    from .c11 import swan_axis_order as _sao
+    from .c07 import _Relabel
+    _sao(repo, _Relabel(rep, "R-C05-10"))
     rep.rule("R-C05-8", "no flattening / reshaping in memory order or Fortran order (order='K' / 'A' / 'F'): the element sequence would depend on the "
                         "in-memory layout of the input")
     from .shared import layout_independent_flattening
